@@ -168,8 +168,8 @@ def run(tier, seed):
         c['n_jobs'] = 2
         c['backend'] = 'loky'
         sub_cases.append(c)
-    src = os.path.join(config.workdir('traces'), 'e4-sub-in.json')
-    dst = os.path.join(config.workdir('traces'), 'e4-sub-out.json')
+    src = os.path.join(config.workdir('traces'), '%d-e4-sub-in.json' % os.getpid())
+    dst = os.path.join(config.workdir('traces'), '%d-e4-sub-out.json' % os.getpid())
     json.dump(sub_cases, open(src, 'w'))
     env = dict(os.environ, PYTHONHASHSEED=str(1 + seed % 1000), PYTHONPATH=os.path.join(config.VERIF, 'harness'))
     proc = subprocess.run([sys.executable, '-W', 'ignore', '-m', 'vf.subrun', src, dst], env=env,
